@@ -412,6 +412,9 @@ def {}():
         else:
           method_blks[ call ].add( blk )
 
+    # Passes that schedule top level callee ports need to know the callers
+    top._dag.method_blks = method_blks
+
     # Put all M-related constraints into predecessor and successor dicts
     pred = defaultdict(set)
     succ = defaultdict(set)
